@@ -60,6 +60,169 @@ Proof.
   replace ((0 <=? 0) && (0 <=? 1) && (1 <=? 1 + len tl)) with true by lia. reflexivity.
 Qed.
 
+(* ---- the cut at max_event_size: escapedCutKeep ---------------------------------------------------- *)
+Lemma slice_to_firstn : forall (s : bytes) (k : nat), (k <= length s)%nat ->
+  slice_to s (Z.of_nat k) = Ok (firstn k s).
+Proof.
+  intros s k H. unfold slice_to, slice.
+  replace ((0 <=? 0) && (0 <=? Z.of_nat k) && (Z.of_nat k <=? len s)) with true by (unfold len; lia).
+  change (Z.to_nat 0) with 0%nat. cbn [skipn]. replace (Z.to_nat (Z.of_nat k - 0)) with k by lia. reflexivity.
+Qed.
+
+(* a well-tokenised prefix can be dropped *)
+Lemma esc_wf_app : forall a b, esc_wf a = true -> esc_wf (a ++ b) = esc_wf b.
+Proof.
+  intros a. remember (length a) as n eqn:Hn. revert a Hn.
+  induction n as [n IH] using lt_wf_ind. intros a Hn b H.
+  destruct a as [|ch r]; [reflexivity|]. cbn [app esc_wf] in *.
+  destruct (N.eqb ch BSLASH).
+  - destruct r as [|e r1]; [discriminate|]. cbn [app]. destruct (N.eqb e CH_u).
+    + destruct r1 as [|h1 [|h2 [|h3 [|h4 r2]]]]; try discriminate. cbn [app].
+      destruct (is_hex h1 && is_hex h2 && is_hex h3 && is_hex h4); [|discriminate]. cbn [andb] in *.
+      apply (IH (length r2)); [subst n; cbn [length]; lia|reflexivity|exact H].
+    + destruct (is_simple_esc e); [|discriminate]. cbn [andb] in *.
+      apply (IH (length r1)); [subst n; cbn [length]; lia|reflexivity|exact H].
+  - destruct (plain_ok ch); [|discriminate]. cbn [andb] in *.
+    apply (IH (length r)); [subst n; cbn [length]; lia|reflexivity|exact H].
+Qed.
+
+Lemma esc_wf_cat : forall a b, esc_wf a = true -> esc_wf b = true -> esc_wf (a ++ b) = true.
+Proof. intros a b Ha Hb. rewrite esc_wf_app by exact Ha. exact Hb. Qed.
+
+Lemma esc_wf_nlesc : esc_wf NLESC = true.
+Proof. reflexivity. Qed.
+
+Lemma klen_skipn : forall {A} n (l : list A), (n <= length l)%nat -> len (skipn n l) = len l - Z.of_nat n.
+Proof. intros. unfold len. rewrite skipn_length. lia. Qed.
+
+(* the loop, from any position i with the view [rest] = s[i:], limit - i bytes of budget left and at
+   least that many bytes in the view: it returns i + m where the m bytes are whole tokens, m is within
+   the budget, fewer than 6 bytes of budget are left unused, and NO longer prefix within the budget
+   ends on a token boundary *)
+Lemma cut_loop_ok : forall fuel rest i limit,
+  0 <= limit - i <= len rest -> (Z.to_nat (limit - i) < fuel)%nat ->
+  exists m : nat,
+    cut_loop fuel rest i limit = Ok (i + Z.of_nat m) /\
+    i + Z.of_nat m <= limit /\ limit - (i + Z.of_nat m) < 6 /\
+    (esc_wf rest = true -> esc_wf (firstn m rest) = true) /\
+    (forall k, (m < k)%nat -> i + Z.of_nat k <= limit -> esc_wf (firstn k rest) = false).
+Proof.
+  induction fuel as [|f IH]; intros rest i limit Hb Hf; [lia|].
+  cbn [cut_loop]. destruct (i <? limit) eqn:Hlt.
+  2:{ exists 0%nat. split; [f_equal; lia|]. split; [lia|]. split; [lia|]. split; [reflexivity|].
+      intros k Hk Hk'. lia. }
+  destruct rest as [|ch r]; [unfold len in Hb; cbn [length] in Hb; lia|].
+  rewrite klen_cons in Hb.
+  destruct (N.eqb ch BSLASH) eqn:Hbs; cbn [negb].
+  - (* a backslash: an escape sequence of n bytes starts here *)
+    destruct r as [|e r1].
+    + (* the string ends with it: n = 2 can not fit *)
+      unfold len in Hb. cbn [length] in Hb.
+      replace (i + 2 >? limit) with true by lia.
+      exists 0%nat. split; [f_equal; lia|]. split; [lia|]. split; [lia|]. split; [reflexivity|].
+      intros k Hk Hk'. destruct k as [|k]; [lia|]. cbn [firstn esc_wf]. rewrite Hbs.
+      destruct k; reflexivity.
+    + rewrite klen_cons in Hb. destruct (N.eqb e CH_u) eqn:Hu.
+      * (* \uXXXX *)
+        destruct (i + 6 >? limit) eqn:Hn.
+        -- exists 0%nat. split; [f_equal; lia|]. split; [lia|]. split; [lia|]. split; [reflexivity|].
+           intros k Hk Hk'.
+           destruct k as [|[|[|[|[|[|k]]]]]]; try lia;
+             destruct r1 as [|h1 [|h2 [|h3 [|h4 r2]]]];
+             cbn [firstn esc_wf]; rewrite ?Hbs, ?Hu; reflexivity.
+        -- destruct r1 as [|h1 [|h2 [|h3 [|h4 r2]]]];
+             try (unfold len in Hb; cbn [length] in Hb; lia).
+           change (Z.to_nat 6) with 6%nat. cbn [skipn].
+           rewrite !klen_cons in Hb.
+           destruct (IH r2 (i + 6) limit) as [m [Hr [Hle [Hmax [Hwf Hlong]]]]]; [lia|lia|].
+           exists (6 + m)%nat. split; [rewrite Hr; f_equal; lia|].
+           split; [lia|]. split; [lia|]. split.
+           ++ intro H. cbn [Nat.add firstn esc_wf] in *. rewrite Hbs, Hu in *.
+              destruct (is_hex h1 && is_hex h2 && is_hex h3 && is_hex h4); [|discriminate].
+              cbn [andb] in *. apply Hwf. exact H.
+           ++ intros k Hk Hk'.
+              destruct k as [|[|[|[|[|[|k]]]]]]; try lia.
+              cbn [firstn esc_wf]. rewrite Hbs, Hu, (Hlong k) by lia. apply andb_false_r.
+      * (* a two-byte escape *)
+        destruct (i + 2 >? limit) eqn:Hn.
+        -- exists 0%nat. split; [f_equal; lia|]. split; [lia|]. split; [lia|]. split; [reflexivity|].
+           intros k Hk Hk'. destruct k as [|[|k]]; try lia. cbn [firstn esc_wf]. rewrite Hbs. reflexivity.
+        -- change (Z.to_nat 2) with 2%nat. cbn [skipn].
+           destruct (IH r1 (i + 2) limit) as [m [Hr [Hle [Hmax [Hwf Hlong]]]]]; [lia|lia|].
+           exists (2 + m)%nat. split; [rewrite Hr; f_equal; lia|].
+           split; [lia|]. split; [lia|]. split.
+           ++ intro H. cbn [Nat.add firstn esc_wf] in *. rewrite Hbs, Hu in *.
+              destruct (is_simple_esc e); [|discriminate]. cbn [andb] in *. apply Hwf. exact H.
+           ++ intros k Hk Hk'. destruct k as [|[|k]]; try lia.
+              cbn [firstn esc_wf]. rewrite Hbs, Hu, (Hlong k) by lia. apply andb_false_r.
+  - (* an ordinary byte *)
+    destruct (IH r (i + 1) limit) as [m [Hr [Hle [Hmax [Hwf Hlong]]]]]; [lia|lia|].
+    exists (S m). split; [rewrite Hr; f_equal; lia|].
+    split; [lia|]. split; [lia|]. split.
+    + intro H. cbn [firstn esc_wf] in *. rewrite Hbs in *.
+      destruct (plain_ok ch); [|discriminate]. cbn [andb] in *. apply Hwf. exact H.
+    + intros k Hk Hk'. destruct k as [|k]; [lia|].
+      cbn [firstn esc_wf]. rewrite Hbs, (Hlong k) by lia. apply andb_false_r.
+Qed.
+
+(* escapedCutKeep is total; what it returns *)
+Lemma escaped_cut_keep_ok : forall s limit,
+  exists k : nat,
+    escaped_cut_keep s limit = Ok (Z.of_nat k) /\ (k <= length s)%nat /\
+    (0 <= limit -> Z.of_nat k <= limit) /\
+    (0 <= limit <= len s -> limit - Z.of_nat k < 6) /\
+    (esc_wf s = true -> esc_wf (firstn k s) = true) /\
+    (forall j, (k < j)%nat -> Z.of_nat j <= limit -> Z.of_nat j <= len s -> esc_wf (firstn j s) = false).
+Proof.
+  intros s limit. unfold escaped_cut_keep.
+  destruct (limit >=? len s) eqn:Hge.
+  - exists (length s). split; [reflexivity|]. split; [lia|]. split; [unfold len in *; lia|].
+    split; [unfold len in *; lia|]. split; [intros H; rewrite firstn_all; exact H|].
+    intros j Hj _ Hj'. unfold len in *. lia.
+  - destruct (limit <? 0) eqn:Hneg.
+    + exists 0%nat. split; [reflexivity|]. split; [lia|]. split; [lia|]. split; [lia|].
+      split; [reflexivity|]. intros j Hj Hj' _. lia.
+    + destruct (cut_loop_ok (S (Z.to_nat limit)) s 0 limit) as [m [Hr [Hle [Hmax [Hwf Hlong]]]]]; [lia|lia|].
+      exists m. rewrite Hr. cbn [Z.add] in *. split; [reflexivity|]. split; [unfold len in *; lia|].
+      split; [lia|]. split; [lia|]. split; [exact Hwf|].
+      intros j Hj Hj' _. apply Hlong; lia.
+Qed.
+
+Lemma cut_keep_spec : forall s limit,
+  escaped_cut_keep s limit = Ok (Z.of_nat (cut_keep s limit)) /\ (cut_keep s limit <= length s)%nat.
+Proof.
+  intros s limit. destruct (escaped_cut_keep_ok s limit) as [k [Hk [Hle _]]].
+  unfold cut_keep. rewrite Hk, Nat2Z.id. split; [reflexivity|exact Hle].
+Qed.
+
+(* the cut never keeps more than the byte limit (what the code before the repair kept) ... *)
+Theorem k8s_cut_keep_le : forall s limit,
+  exists k, escaped_cut_keep s limit = Ok k /\ 0 <= k <= len s /\ (0 <= limit -> k <= Z.min limit (len s)).
+Proof.
+  intros s limit. destruct (escaped_cut_keep_ok s limit) as [k [Hk [Hle [Hlim _]]]].
+  exists (Z.of_nat k). split; [exact Hk|]. unfold len. split; [lia|]. intro H. specialize (Hlim H). lia.
+Qed.
+
+(* ... never splits a token of a well-tokenised body, for every limit ... *)
+Theorem k8s_cut_keep_tokens : forall s limit k,
+  escaped_cut_keep s limit = Ok k -> esc_wf s = true -> esc_wf (firstn (Z.to_nat k) s) = true.
+Proof.
+  intros s limit k Hk H. destruct (escaped_cut_keep_ok s limit) as [k' [Hk' [_ [_ [_ [Hwf _]]]]]].
+  rewrite Hk in Hk'. inversion Hk'; subst k. rewrite Nat2Z.id. apply Hwf. exact H.
+Qed.
+
+(* ... and keeps the LONGEST prefix within the limit that ends on a token boundary: fewer than 6 bytes
+   (one \uXXXX sequence) of the budget stay unused, and no longer prefix within the limit is well
+   tokenised *)
+Theorem k8s_cut_keep_maximal : forall s limit k,
+  escaped_cut_keep s limit = Ok k -> 0 <= limit <= len s ->
+  limit - k < 6 /\ forall j, k < j <= limit -> esc_wf (firstn (Z.to_nat j) s) = false.
+Proof.
+  intros s limit k Hk Hl. destruct (escaped_cut_keep_ok s limit) as [k' [Hk' [_ [_ [Hmax [_ Hlong]]]]]].
+  rewrite Hk in Hk'. inversion Hk'; subst k. split; [apply Hmax; exact Hl|].
+  intros j Hj. apply Hlong; lia.
+Qed.
+
 (* ---- the line-end test -------------------------------------------------------------------------- *)
 Fixpoint lead_bs (l : bytes) : nat :=
   match l with c :: r => if N.eqb c BSLASH then S (lead_bs r) else O | [] => O end.
@@ -226,22 +389,17 @@ Qed.
 Definition kinv (c : kcfg) (st : kstate) (hist : list (bytes * Z)) : Prop :=
   Forall (fun f => 2 <= len f) (map fst hist) /\ esize st = sum_sizes hist /\
   match first_unfit (kmax c) 1 (map fst hist) with
-  | None => skipNext st = false /\ cutOff st = false /\ ebuf st = QUOTE :: bodies (map fst hist) /\
-            (kmax c <> 0 -> len (ebuf st) <= kmax c - 3)
+  | None => skipNext st = false /\ cutOff st = false /\ ebuf st = QUOTE :: bodies (map fst hist)
   | Some (p, u) =>
       skipNext st = true /\
       if kcut c
-      then cutOff st = true /\ len (ebuf st) = kmax c - 2 /\
-           ebuf st = QUOTE :: firstn (Z.to_nat (kmax c - 3)) (bodies (p ++ [u]))
+      then cutOff st = true /\ ebuf st = QUOTE :: cut_body (kmax c) p u
       else cutOff st = false /\ exists tl, ebuf st = QUOTE :: tl
   end.
 
-Lemma kinv_init : forall c, kmax_ok c = true ->
+Lemma kinv_init : forall c,
   kinv c {| ebuf := [QUOTE]; esize := 0; skipNext := false; cutOff := false |} [].
-Proof.
-  intros c Hm. unfold kinv. cbn. repeat split; try constructor.
-  intro Hz. unfold kmax_ok in Hm. unfold len. cbn. lia.
-Qed.
+Proof. intros c. unfold kinv. cbn. repeat split; constructor. Qed.
 
 Definition step_term (c : kcfg) (hist : list (bytes * Z)) (f : bytes) (sz : Z) : bool :=
   ends_nl f || (opt_is_none (first_unfit (kmax c) 1 (map fst hist)) &&
@@ -255,21 +413,15 @@ Lemma k_reset_quote : forall tl e s co,
   = Ok {| ebuf := [QUOTE]; esize := 0; skipNext := s; cutOff := false |}.
 Proof. intros. unfold k_reset. cbn [ebuf skipNext]. rewrite slice_to_one. reflexivity. Qed.
 
-Lemma firstn_bodies_cut : forall (a b : bytes) n,
-  (length a <= n)%nat -> firstn n (a ++ b) = a ++ firstn (n - length a) b.
-Proof.
-  intros a b n H. rewrite firstn_app. rewrite firstn_all2 by exact H. reflexivity.
-Qed.
-
 Lemma k_step_spec : forall c st hist f sz,
-  kmax_ok c = true -> konly c = false -> kinv c st hist -> 2 <= len f ->
+  konly c = false -> kinv c st hist -> 2 <= len f ->
   exists st',
     k_do c st (KChunk f sz) =
       Ok (st', if step_term c hist f sz then final_step c (map fst hist) f
                else (ACollapse, step_inc c hist f, None, false)) /\
     kinv c st' (if step_term c hist f sz then [] else hist ++ [(f, sz)]).
 Proof.
-  intros c st hist f sz Hm Ho [Hfs [He Hinv]] Hf.
+  intros c st hist f sz Ho [Hfs [He Hinv]] Hf.
   assert (Hfs' : Forall (fun f => 2 <= len f) (map fst (hist ++ [(f, sz)]))).
   { rewrite map_app. apply Forall_app. split; [exact Hfs|]. constructor; [exact Hf|constructor]. }
   assert (Hnz : Nat.eqb (length f) 0 = false) by (unfold len in Hf; lia).
@@ -284,36 +436,24 @@ Proof.
     + (* the line ends *)
       unfold final_step. rewrite Eu. rewrite Hend.
       destruct (kcut c) eqn:Hcut.
-      * destruct Hc as [Hco [Hlen Heb]]. subst co. cbn [negb andb].
-        replace (len eb >? 1) with true by (unfold kmax_ok in Hm; lia).
-        clear Hlen. subst eb. rewrite k_reset_quote. cbn [bind].
-        eexists. split; [reflexivity|]. apply kinv_init. exact Hm.
+      * destruct Hc as [Hco Heb]. subst co. cbn [negb andb]. rewrite orb_true_r.
+        subst eb. rewrite k_reset_quote. cbn [bind].
+        eexists. split; [reflexivity|]. apply kinv_init.
       * destruct Hc as [Hco [tl Heb]]. subst co eb. cbn [negb andb]. rewrite k_reset_quote. cbn [bind].
-        eexists. split; [reflexivity|]. apply kinv_init. exact Hm.
-    + (* still inside the oversize line *)
-      assert (Hkeep : forall eb' co',
-                (if kcut c then co' = true /\ len eb' = kmax c - 2 /\
-                                eb' = QUOTE :: firstn (Z.to_nat (kmax c - 3)) (bodies (p ++ [u]))
-                 else co' = false /\ exists tl, eb' = QUOTE :: tl) ->
-                kinv c {| ebuf := eb'; esize := sum_sizes hist + sz; skipNext := true; cutOff := co' |}
-                     (hist ++ [(f, sz)])).
-      { intros eb' co' H. unfold kinv. cbn [ebuf esize skipNext cutOff].
+        eexists. split; [reflexivity|]. apply kinv_init.
+    + (* still inside the oversize line: nothing is appended any more *)
+      assert (Hkeep : kinv c {| ebuf := eb; esize := sum_sizes hist + sz; skipNext := true; cutOff := co |}
+                           (hist ++ [(f, sz)])).
+      { unfold kinv. cbn [ebuf esize skipNext cutOff].
         split; [exact Hfs'|]. split; [symmetry; apply sum_sizes_snoc|].
         rewrite map_app. cbn [map fst]. rewrite (first_unfit_snoc_some _ _ _ f _ Eu).
-        split; [reflexivity|exact H]. }
+        split; [reflexivity|exact Hc]. }
       destruct (sum_sizes hist + sz + lookahead >? ksplit c) eqn:Hsp; cbn [negb andb].
-      * eexists. split; [reflexivity|]. apply Hkeep. exact Hc.
-      * destruct (kcut c) eqn:Hcut.
-        -- destruct Hc as [Hco [Hlen Heb]].
-           replace ((kmax c =? 0) || (len eb + len f <? kmax c)) with false by lia.
-           eexists. split; [reflexivity|]. apply Hkeep. auto.
-        -- destruct Hc as [Hco [tl Heb]].
-           destruct ((kmax c =? 0) || (len eb + len f <? kmax c)).
-           ++ rewrite (slice_body f Hf). cbn [bind]. eexists. split; [reflexivity|].
-              apply Hkeep. split; [exact Hco|]. subst eb. eexists. reflexivity.
-           ++ eexists. split; [reflexivity|]. apply Hkeep. split; [exact Hco|]. eauto.
+      * eexists. split; [reflexivity|]. exact Hkeep.
+      * replace (kmax c =? 0) with false by lia. cbn [orb].
+        eexists. split; [reflexivity|]. exact Hkeep.
   - (* everything so far fitted: the buffer is the concatenation of the bodies *)
-    destruct Hinv as [Hsk [Hco [Heb Hbound]]]. subst sk co. cbn [negb andb].
+    destruct Hinv as [Hsk [Hco Heb]]. subst sk co. cbn [negb andb]. rewrite orb_false_r.
     assert (Hlb : len eb = 1 + grow (map fst hist)).
     { rewrite Heb, klen_cons, (grow_bodies _ Hfs). reflexivity. }
     rewrite (first_unfit_snoc_none _ _ _ f Eu).
@@ -324,10 +464,10 @@ Proof.
       unfold final_step. rewrite Eu.
       destruct (bodies (map fst hist)) as [|b0 bs] eqn:Eb.
       * replace (len eb >? 1) with false by (rewrite Heb; reflexivity).
-        rewrite Heb, k_reset_quote. cbn [bind]. eexists. split; [reflexivity|]. apply kinv_init. exact Hm.
+        rewrite Heb, k_reset_quote. cbn [bind]. eexists. split; [reflexivity|]. apply kinv_init.
       * replace (len eb >? 1) with true by (rewrite Heb, !klen_cons; pose proof (klen_nonneg bs); lia).
         rewrite (slice_body f Hf). cbn [bind]. rewrite Heb, k_reset_quote. cbn [bind].
-        eexists. split; [reflexivity|]. apply kinv_init. exact Hm.
+        eexists. split; [reflexivity|]. apply kinv_init.
     + (* a partial chunk *)
       replace (negb (ends_nl f) && negb (sum_sizes hist + sz + lookahead >? ksplit c)) with true
         by (destruct (ends_nl f), (sum_sizes hist + sz + lookahead >? ksplit c); cbn in *; congruence).
@@ -338,28 +478,22 @@ Proof.
         unfold kinv. cbn [ebuf esize skipNext cutOff]. split; [exact Hfs'|].
         split; [symmetry; apply sum_sizes_snoc|].
         rewrite map_app. cbn [map fst]. rewrite (first_unfit_snoc_none _ _ _ f Eu), Hfit.
-        repeat split.
-        -- rewrite Heb, bodies_app, bodies_one. reflexivity.
-        -- intro Hz. rewrite klen_app, Hlb, (body_len f Hf). lia.
+        repeat split. rewrite Heb, bodies_app, bodies_one. reflexivity.
       * (* it does not fit: the first oversize chunk of the line *)
-        assert (Hmax : kmax c <> 0) by lia. specialize (Hbound Hmax).
         assert (Hsnoc : first_unfit (kmax c) 1 (map fst (hist ++ [(f, sz)])) = Some (map fst hist, f)).
         { rewrite map_app. cbn [map fst]. rewrite (first_unfit_snoc_none _ _ _ f Eu), Hfit. reflexivity. }
         destruct (kcut c) eqn:Hcut.
-        -- (* cut off: keep what still fits *)
-           replace (len f - 1 - (1 + grow (map fst hist) + len f - kmax c))
-             with (1 + (kmax c - 3 - grow (map fst hist))) by lia.
-           rewrite (slice_body_prefix f _ Hf) by lia. cbn [bind].
+        -- (* cut off: keep the whole tokens that still fit *)
+           rewrite (slice_body f Hf). cbn [bind].
+           replace (len (body f) - (1 + grow (map fst hist) + len f - kmax c))
+             with (kmax c - 3 - len (bodies (map fst hist)))
+             by (rewrite (body_len f Hf), (grow_bodies _ Hfs); lia).
+           destruct (cut_keep_spec (body f) (kmax c - 3 - len (bodies (map fst hist)))) as [Hk Hle].
+           rewrite Hk. cbn [bind]. rewrite (slice_to_firstn _ _ Hle). cbn [bind].
            eexists. split; [reflexivity|].
            unfold kinv. cbn [ebuf esize skipNext cutOff]. split; [exact Hfs'|].
            split; [symmetry; apply sum_sizes_snoc|]. rewrite Hsnoc, Hcut.
-           assert (Hgl : Z.of_nat (length (bodies (map fst hist))) = grow (map fst hist)).
-           { rewrite <- (grow_bodies _ Hfs). reflexivity. }
-           repeat split.
-           ++ rewrite klen_app, Hlb, klen_firstn; [lia|].
-              pose proof (body_len f Hf) as Hbl. unfold len in *. lia.
-           ++ rewrite Heb, bodies_app, bodies_one. cbn [app]. f_equal.
-              rewrite firstn_bodies_cut by lia. f_equal. f_equal. lia.
+           repeat split. unfold cut_body. rewrite Heb. reflexivity.
         -- (* discard the whole line *)
            eexists. split; [reflexivity|].
            unfold kinv. cbn [ebuf esize skipNext cutOff]. split; [exact Hfs'|].
@@ -368,28 +502,29 @@ Proof.
 Qed.
 
 (* ---- time-out free input: every step is k_spec of the current line ------------------------------ *)
-Lemma k_run_spec : forall c, kmax_ok c = true -> konly c = false ->
+Lemma k_run_spec : forall c, konly c = false ->
   forall xs hist st, kinv c st hist -> no_timeout xs = true -> forallb frag_ok xs = true ->
   exists st', k_run c st xs = (k_spec c hist xs, Ok st').
 Proof.
-  intros c Hm Ho. induction xs as [|x r IH]; intros hist st Hinv Hnt Hok.
+  intros c Ho. induction xs as [|x r IH]; intros hist st Hinv Hnt Hok.
   - exists st. reflexivity.
   - cbn [no_timeout forallb] in Hnt, Hok. apply andb_true_iff in Hnt. apply andb_true_iff in Hok.
     destruct Hnt as [Hx Hnt], Hok as [Hfx Hok]. destruct x as [|f sz]; [discriminate|].
     cbn [frag_ok] in Hfx. assert (Hf : 2 <= len f) by lia.
-    destruct (k_step_spec c st hist f sz Hm Ho Hinv Hf) as [st1 [Hdo Hinv1]].
+    destruct (k_step_spec c st hist f sz Ho Hinv Hf) as [st1 [Hdo Hinv1]].
     cbn [k_run k_spec]. rewrite Hdo. fold (step_term c hist f sz). fold (step_inc c hist f).
     destruct (step_term c hist f sz).
     + destruct (IH [] st1 Hinv1 Hnt Hok) as [st' Hr]. rewrite Hr. exists st'. reflexivity.
     + destruct (IH _ st1 Hinv1 Hnt Hok) as [st' Hr]. rewrite Hr. exists st'. reflexivity.
 Qed.
 
+(* every max_event_size (the cut treats a negative remainder as "keep nothing") *)
 Theorem k8s_steps_are_spec : forall c xs,
-  kmax_ok c = true -> konly c = false -> no_timeout xs = true -> forallb frag_ok xs = true ->
+  konly c = false -> no_timeout xs = true -> forallb frag_ok xs = true ->
   exists st, k_run c kstate0 xs = (k_spec c [] xs, Ok st).
 Proof.
-  intros c xs Hm Ho Hnt Hok. apply (k_run_spec c Hm Ho xs [] kstate0); try assumption.
-  apply kinv_init. exact Hm.
+  intros c xs Ho Hnt Hok. apply (k_run_spec c Ho xs [] kstate0); try assumption.
+  apply kinv_init.
 Qed.
 
 (* a line whose chunks all fit and which is not split: one event, the in-order concatenation *)
@@ -459,76 +594,199 @@ Proof. intros c Hz xs Hnt. exact (k8s_conservation c Hz xs [] Hnt). Qed.
 
 (* ---- never panics: every configuration with max_event_size 0 or >= 4, every state reachable, ----
    ---- time-outs anywhere, every fragment that is at least the two quotes                       ---- *)
-Definition kj (c : kcfg) (st : kstate) : Prop :=
-  (exists tl, ebuf st = QUOTE :: tl) /\
-  (kmax c <> 0 -> skipNext st = false -> len (ebuf st) <= kmax c - 3).
+Definition kj (st : kstate) : Prop := exists tl, ebuf st = QUOTE :: tl.
 
-Lemma kj_init : forall c, kmax_ok c = true -> kj c kstate0.
-Proof.
-  intros c Hm. split; [exists []; reflexivity|]. intros Hz _. unfold kmax_ok in Hm. cbn. lia.
-Qed.
+Lemma kj_init : kj kstate0.
+Proof. exists []. reflexivity. Qed.
 
-Lemma kj_reset : forall c (tl : bytes) e s co, kmax_ok c = true ->
-  kj c {| ebuf := [QUOTE]; esize := e; skipNext := s; cutOff := co |}.
+Lemma k_do_total : forall c st x, kj st -> frag_ok x = true ->
+  exists st' o, k_do c st x = Ok (st', o) /\ kj st'.
 Proof.
-  intros c tl e s co Hm. split; [exists []; reflexivity|]. intros Hz _. unfold kmax_ok in Hm. cbn. lia.
-Qed.
-
-Lemma k_do_total : forall c st x, kmax_ok c = true -> kj c st -> frag_ok x = true ->
-  exists st' o, k_do c st x = Ok (st', o) /\ kj c st'.
-Proof.
-  intros c st x Hm [[tl Heb] Hb] Hx. destruct st as [eb es sk co]. cbn [ebuf skipNext] in *. subst eb.
+  intros c st x [tl Heb] Hx. destruct st as [eb es sk co]. cbn [ebuf] in *. subst eb.
+  assert (Hr : forall e s co', kj {| ebuf := [QUOTE]; esize := e; skipNext := s; cutOff := co' |})
+    by (intros; exists []; reflexivity).
   destruct x as [|f sz].
-  - cbn [k_do]. rewrite k_reset_quote. cbn [bind]. eexists _, _. split; [reflexivity|].
-    apply (kj_reset c [] _ _ _ Hm).
+  - cbn [k_do]. rewrite k_reset_quote. cbn [bind]. eexists _, _. split; [reflexivity|]. apply Hr.
   - cbn [frag_ok] in Hx. assert (Hf : 2 <= len f) by lia.
     assert (Hnz : Nat.eqb (length f) 0 = false) by (unfold len in Hf; lia).
-    assert (Hq : exists tl', QUOTE :: tl = QUOTE :: tl') by eauto.
+    assert (Hq : forall e s co', kj {| ebuf := QUOTE :: tl; esize := e; skipNext := s; cutOff := co' |})
+      by (intros; eexists; reflexivity).
     unfold k_do. destruct (konly c).
-    { eexists _, _. split; [reflexivity|]. split; [exact Hq|exact Hb]. }
+    { eexists _, _. split; [reflexivity|]. apply Hq. }
     rewrite Hnz, (is_line_end_spec f Hf). cbn [bind ebuf esize skipNext cutOff].
     destruct (negb (ends_nl f) && negb (es + sz + lookahead >? ksplit c)).
-    + destruct ((kmax c =? 0) || (len (QUOTE :: tl) + len f <? kmax c)) eqn:Hfit.
+    + destruct ((kmax c =? 0) || (negb sk && (len (QUOTE :: tl) + len f <? kmax c))).
       * rewrite (slice_body f Hf). cbn [bind]. eexists _, _. split; [reflexivity|].
-        split; [cbn [ebuf]; eexists; reflexivity|]. cbn [ebuf skipNext]. intros Hz Hs.
-        rewrite klen_app, (body_len f Hf). lia.
-      * destruct (negb sk) eqn:Hsk.
+        eexists. reflexivity.
+      * destruct (negb sk).
         -- destruct (kcut c).
-           ++ assert (Hmax : kmax c <> 0) by lia.
-              assert (Hs : sk = false) by (destruct sk; [discriminate|reflexivity]).
-              specialize (Hb Hmax Hs).
-              replace (len f - 1 - (len (QUOTE :: tl) + len f - kmax c))
-                with (1 + (kmax c - len (QUOTE :: tl) - 2)) by lia.
-              rewrite (slice_body_prefix f _ Hf) by lia. cbn [bind].
-              eexists _, _. split; [reflexivity|]. split; [cbn [ebuf]; eexists; reflexivity|].
-              cbn [skipNext]. intros _ Hd. discriminate.
-           ++ eexists _, _. split; [reflexivity|]. split; [exact Hq|]. cbn [skipNext]. intros _ Hd. discriminate.
-        -- eexists _, _. split; [reflexivity|]. split; [exact Hq|exact Hb].
+           ++ rewrite (slice_body f Hf). cbn [bind].
+              destruct (cut_keep_spec (body f) (len (body f) - (len (QUOTE :: tl) + len f - kmax c))) as [Hk Hle].
+              rewrite Hk. cbn [bind]. rewrite (slice_to_firstn _ _ Hle). cbn [bind].
+              eexists _, _. split; [reflexivity|]. eexists. reflexivity.
+           ++ eexists _, _. split; [reflexivity|]. apply Hq.
+        -- eexists _, _. split; [reflexivity|]. apply Hq.
     + destruct (sk && negb (ends_nl f)).
-      * eexists _, _. split; [reflexivity|]. split; [exact Hq|]. cbn [skipNext]. intros _ Hd. discriminate.
+      * eexists _, _. split; [reflexivity|]. apply Hq.
       * destruct (sk && negb co).
-        -- rewrite k_reset_quote. cbn [bind]. eexists _, _. split; [reflexivity|]. apply (kj_reset c [] _ _ _ Hm).
-        -- destruct (len (QUOTE :: tl) >? 1).
+        -- rewrite k_reset_quote. cbn [bind]. eexists _, _. split; [reflexivity|]. apply Hr.
+        -- destruct ((len (QUOTE :: tl) >? 1) || co).
            ++ destruct (negb co).
               ** rewrite (slice_body f Hf). cbn [bind]. rewrite k_reset_quote. cbn [bind].
-                 eexists _, _. split; [reflexivity|]. apply (kj_reset c [] _ _ _ Hm).
+                 eexists _, _. split; [reflexivity|]. apply Hr.
               ** rewrite k_reset_quote. cbn [bind].
-                 eexists _, _. split; [reflexivity|]. apply (kj_reset c [] _ _ _ Hm).
+                 eexists _, _. split; [reflexivity|]. apply Hr.
            ++ rewrite k_reset_quote. cbn [bind].
-              eexists _, _. split; [reflexivity|]. apply (kj_reset c [] _ _ _ Hm).
+              eexists _, _. split; [reflexivity|]. apply Hr.
 Qed.
 
-Theorem k8s_total : forall c xs, kmax_ok c = true -> forallb frag_ok xs = true ->
+(* every configuration: any max_event_size (also 1..3 and negative values: the cut then keeps nothing) *)
+Theorem k8s_total : forall c xs, forallb frag_ok xs = true ->
   is_ok (snd (k_run c kstate0 xs)) = true /\ length (fst (k_run c kstate0 xs)) = length xs.
 Proof.
-  intros c xs Hm. assert (G : forall xs st, kj c st -> forallb frag_ok xs = true ->
+  intros c xs. assert (G : forall xs st, kj st -> forallb frag_ok xs = true ->
      is_ok (snd (k_run c st xs)) = true /\ length (fst (k_run c st xs)) = length xs).
   { clear xs. induction xs as [|x r IH]; intros st Hj Hok; [split; reflexivity|].
     cbn [forallb] in Hok. apply andb_true_iff in Hok. destruct Hok as [Hx Hok].
-    destruct (k_do_total c st x Hm Hj Hx) as [st' [o [Hdo Hj']]].
+    destruct (k_do_total c st x Hj Hx) as [st' [o [Hdo Hj']]].
     cbn [k_run]. rewrite Hdo. destruct (IH st' Hj' Hok) as [H1 H2].
     destruct (k_run c st' r) as [os f]. cbn [fst snd length] in *. split; [exact H1|lia]. }
-  intro Hok. apply G; [apply kj_init; exact Hm|exact Hok].
+  intro Hok. apply G; [apply kj_init|exact Hok].
+Qed.
+
+(* ---- the cut event ----------------------------------------------------------------------------------- *)
+Lemma first_unfit_split : forall max fs pre p u,
+  first_unfit max pre fs = Some (p, u) ->
+  exists rest, fs = p ++ u :: rest /\ (pre + grow p + len u <? max) = false.
+Proof.
+  induction fs as [|g r IH]; intros pre p u H; [discriminate|].
+  cbn [first_unfit] in H. destruct ((max =? 0) || (pre + len g <? max)) eqn:Hf.
+  - destruct (first_unfit max (pre + len g - 2) r) as [[p' u']|] eqn:E; [|discriminate].
+    inversion H; subst p u. destruct (IH _ _ _ E) as [rest [Hr Hu]].
+    exists rest. split; [rewrite Hr; reflexivity|]. cbn [grow fold_right]. fold (grow p'). lia.
+  - inversion H; subst p u. exists r. split; [reflexivity|]. cbn [grow fold_right]. lia.
+Qed.
+
+(* what the passed event of an oversize line carries when cut_off_event_by_limit is on: the bodies of
+   the chunks that fitted and the longest run of whole tokens of the first chunk that did not, within
+   max_event_size - 3 bytes in all.  It is a PREFIX of the line (nothing after the cut is glued on),
+   never longer than the byte limit the code before the repair cut at, and shorter than that by less
+   than one \uXXXX sequence *)
+Theorem k8s_cut_event : forall c fs g p u,
+  Forall (fun f => 2 <= len f) fs ->
+  first_unfit (kmax c) 1 fs = Some (p, u) -> kcut c = true ->
+  final_step c fs g =
+    (APass, 0, Some (QUOTE :: cut_body (kmax c) p u ++ (if ends_nl g then NLESC else []) ++ [QUOTE]), kfield c) /\
+  (exists rest, bodies fs = cut_body (kmax c) p u ++ rest) /\
+  len (bodies p) <= len (cut_body (kmax c) p u) <= Z.max (len (bodies p)) (kmax c - 3) /\
+  (len (bodies p) <= kmax c - 3 -> kmax c - 3 - len (cut_body (kmax c) p u) < 6).
+Proof.
+  intros c fs g p u Hfs Hu Hcut.
+  destruct (first_unfit_split _ _ _ _ _ Hu) as [rest [Hsplit Hnofit]].
+  assert (Hp : Forall (fun f => 2 <= len f) p /\ 2 <= len u).
+  { subst fs. apply Forall_app in Hfs. destruct Hfs as [H1 H2]. inversion H2; subst. split; assumption. }
+  destruct Hp as [Hp Hlu].
+  destruct (escaped_cut_keep_ok (body u) (kmax c - 3 - len (bodies p)))
+    as [k [Hk [Hkle [Hklim [Hkmax _]]]]].
+  assert (Hck : cut_keep (body u) (kmax c - 3 - len (bodies p)) = k).
+  { unfold cut_keep. rewrite Hk. apply Nat2Z.id. }
+  assert (Hlen : len (cut_body (kmax c) p u) = len (bodies p) + Z.of_nat k).
+  { unfold cut_body. rewrite Hck, klen_app, klen_firstn by exact Hkle. reflexivity. }
+  split; [unfold final_step; rewrite Hu, Hcut; reflexivity|]. split.
+  - exists (skipn k (body u) ++ bodies rest). subst fs.
+    rewrite bodies_app. change (bodies (u :: rest)) with (body u ++ bodies rest).
+    unfold cut_body. rewrite Hck, <- app_assoc. f_equal.
+    rewrite app_assoc, firstn_skipn. reflexivity.
+  - rewrite Hlen. pose proof (klen_nonneg (bodies p)). split.
+    + destruct (Z_le_gt_dec 0 (kmax c - 3 - len (bodies p))) as [Hpos|Hneg].
+      * specialize (Hklim Hpos). lia.
+      * (* a negative limit keeps nothing *)
+        assert (k = 0%nat).
+        { unfold escaped_cut_keep in Hk.
+          replace (kmax c - 3 - len (bodies p) >=? len (body u)) with false in Hk
+            by (pose proof (klen_nonneg (body u)); lia).
+          replace (kmax c - 3 - len (bodies p) <? 0) with true in Hk by lia.
+          inversion Hk. lia. }
+        lia.
+    + intro Hb. rewrite (grow_bodies _ Hp) in *. pose proof (body_len u Hlu).
+      assert (Hin : 0 <= kmax c - 3 - grow p <= len (body u)) by lia. specialize (Hkmax Hin). lia.
+Qed.
+
+(* ---- every passed log is a valid escaped JSON string when every fragment is ------------------------- *)
+Definition kw (st : kstate) : Prop := exists b, ebuf st = QUOTE :: b /\ esc_wf b = true.
+
+Lemma body_quoted' : forall b x, body ((QUOTE :: b) ++ x ++ [QUOTE]) = b ++ x.
+Proof.
+  intros. cbn [app]. rewrite app_assoc. unfold body. cbn [tl]. apply removelast_last.
+Qed.
+
+Lemma k_do_wf : forall c st x, kw st -> frag_ok x = true -> frag_wf x = true ->
+  exists st' o, k_do c st x = Ok (st', o) /\ kw st' /\ step_wf o = true.
+Proof.
+  intros c st x [b [Heb Hwb]] Hx Hwx. destruct st as [eb es sk co]. cbn [ebuf] in *. subst eb.
+  assert (Hr : forall e s co', kw {| ebuf := [QUOTE]; esize := e; skipNext := s; cutOff := co' |})
+    by (intros; exists []; split; reflexivity).
+  assert (Hq : forall e s co', kw {| ebuf := QUOTE :: b; esize := e; skipNext := s; cutOff := co' |})
+    by (intros; exists b; split; [reflexivity|exact Hwb]).
+  destruct x as [|f sz].
+  - cbn [k_do]. rewrite k_reset_quote. cbn [bind]. eexists _, _. split; [reflexivity|]. split; [apply Hr|reflexivity].
+  - cbn [frag_ok frag_wf] in Hx, Hwx. assert (Hf : 2 <= len f) by lia.
+    assert (Hnz : Nat.eqb (length f) 0 = false) by (unfold len in Hf; lia).
+    unfold k_do. destruct (konly c).
+    { eexists _, _. split; [reflexivity|]. split; [apply Hq|exact Hwx]. }
+    rewrite Hnz, (is_line_end_spec f Hf). cbn [bind ebuf esize skipNext cutOff].
+    destruct (negb (ends_nl f) && negb (es + sz + lookahead >? ksplit c)).
+    + destruct ((kmax c =? 0) || (negb sk && (len (QUOTE :: b) + len f <? kmax c))).
+      * rewrite (slice_body f Hf). cbn [bind]. eexists _, _. split; [reflexivity|]. split; [|reflexivity].
+        exists (b ++ body f). split; [reflexivity|]. apply esc_wf_cat; assumption.
+      * destruct (negb sk).
+        -- destruct (kcut c).
+           ++ rewrite (slice_body f Hf). cbn [bind].
+              destruct (escaped_cut_keep_ok (body f) (len (body f) - (len (QUOTE :: b) + len f - kmax c)))
+                as [k [Hk [Hle [_ [_ [Hwf _]]]]]].
+              rewrite Hk. cbn [bind]. rewrite (slice_to_firstn _ _ Hle). cbn [bind].
+              eexists _, _. split; [reflexivity|]. split; [|reflexivity].
+              exists (b ++ firstn k (body f)). split; [reflexivity|].
+              apply esc_wf_cat; [exact Hwb|apply Hwf; exact Hwx].
+           ++ eexists _, _. split; [reflexivity|]. split; [apply Hq|reflexivity].
+        -- eexists _, _. split; [reflexivity|]. split; [apply Hq|reflexivity].
+    + destruct (sk && negb (ends_nl f)).
+      * eexists _, _. split; [reflexivity|]. split; [apply Hq|reflexivity].
+      * destruct (sk && negb co).
+        -- rewrite k_reset_quote. cbn [bind]. eexists _, _. split; [reflexivity|]. split; [apply Hr|reflexivity].
+        -- destruct ((len (QUOTE :: b) >? 1) || co).
+           ++ destruct (negb co).
+              ** (* the joined line *)
+                 rewrite (slice_body f Hf). cbn [bind]. rewrite k_reset_quote. cbn [bind].
+                 eexists _, _. split; [reflexivity|]. split; [apply Hr|].
+                 unfold step_wf. cbn [fst snd]. rewrite body_quoted'. apply esc_wf_cat; assumption.
+              ** (* the cut line *)
+                 rewrite k_reset_quote. cbn [bind].
+                 eexists _, _. split; [reflexivity|]. split; [apply Hr|].
+                 unfold step_wf. cbn [fst snd]. rewrite body_quoted'.
+                 apply esc_wf_cat; [exact Hwb|]. destruct (ends_nl f); reflexivity.
+           ++ (* nothing buffered: the event is passed untouched *)
+              rewrite k_reset_quote. cbn [bind].
+              eexists _, _. split; [reflexivity|]. split; [apply Hr|exact Hwx].
+Qed.
+
+(* end to end, every configuration, time-outs anywhere, only_node or not: when every fragment is a
+   valid escaped JSON string, the log field of every passed event is one too — the joined event (a
+   concatenation of valid bodies), the cut event (whole tokens only, then the token \n) and the event
+   passed untouched *)
+Theorem k8s_cut_event_wf : forall c xs,
+  forallb frag_ok xs = true -> forallb frag_wf xs = true ->
+  forallb step_wf (fst (k_run c kstate0 xs)) = true.
+Proof.
+  intros c xs. assert (G : forall xs st, kw st -> forallb frag_ok xs = true -> forallb frag_wf xs = true ->
+     forallb step_wf (fst (k_run c st xs)) = true).
+  { clear xs. induction xs as [|x r IH]; intros st Hj Hok Hwf; [reflexivity|].
+    cbn [forallb] in Hok, Hwf. apply andb_true_iff in Hok. apply andb_true_iff in Hwf.
+    destruct Hok as [Hx Hok], Hwf as [Hwx Hwf].
+    destruct (k_do_wf c st x Hj Hx Hwx) as [st' [o [Hdo [Hj' Ho]]]].
+    cbn [k_run]. rewrite Hdo. specialize (IH st' Hj' Hok Hwf).
+    destruct (k_run c st' r) as [os f]. cbn [fst forallb] in *. rewrite Ho, IH. reflexivity. }
+  apply G. exists []. split; reflexivity.
 Qed.
 
 (* the flush-on-time-out clause does NOT hold for this action: the time-out branch only resets the
